@@ -1,0 +1,74 @@
+//go:build verif
+
+package compact
+
+// Contracts of the b6vc verifier (/verif): //@ comment blocks keyed by
+// function name and loop ordinal.
+
+// ---- C11: Reference --------------------------------------------------------------
+
+//@ func refLenAt
+//@   opaque at
+//@   extent refLenAt
+//@ func refOKAt
+//@   opaque at
+//@   extent refLenAt
+//@ func refTNAt
+//@   opaque at
+//@   extent refLenAt
+//@ func refValAt
+//@   opaque at
+//@   extent refLenAt
+
+//@ func (*Reference).Marshal
+//@   requires vRefLen(r.TypeAndNamespace, r.Value, primary) <= len(buffer)
+//@   modifies buffer
+//@   ensures result == vRefLen(r.TypeAndNamespace, r.Value, primary)
+//@   ensures refOKAt(buffer, 0) && refLenAt(buffer, 0) == result
+//@   ensures refTNAt(buffer, 0, primary) == r.TypeAndNamespace && refValAt(buffer, 0) == r.Value
+//@   ensures unchanged(buffer, result, len(buffer))
+//@   ensures r.TypeAndNamespace == old(r.TypeAndNamespace) && r.Value == old(r.Value)
+
+//@ func (*Reference).Unmarshal
+//@   requires refOKAt(buffer, 0) && refLenAt(buffer, 0) <= len(buffer)
+//@   modifies *r
+//@   ensures result == refLenAt(buffer, 0) && r.TypeAndNamespace == refTNAt(buffer, 0, primary) && r.Value == refValAt(buffer, 0)
+
+// ---- C11: References lists -------------------------------------------------------
+
+//@ func rLast
+//@   decreases j
+//@ func rPos
+//@   decreases j
+
+//@ func References.MarshalWithoutLength
+//@   requires forall(j, 0, len(rs), 0 <= rPos(rs, j, primary) && rPos(rs, j, primary) + rLen(rs, j, primary) <= len(buffer), rPos(rs, j, primary))
+//@   modifies buffer
+//@   loop 1 modifies buffer
+//@   loop 1 invariant 0 <= rangeindex+1 && rangeindex+1 <= len(rs)
+//@   loop 1 invariant i == rPos(rs, rangeindex+1, primary)
+//@   loop 1 invariant last == rLast(rs, rangeindex+1, primary)
+//@   loop 1 invariant forall(j, 0, rangeindex+1, rAt(buffer, rs, j, primary) && rPos(rs, j, primary) + rLen(rs, j, primary) <= i, rPos(rs, j, primary))
+//@   ensures result == rPos(rs, len(rs), primary)
+//@   ensures forall(j, 0, len(rs), rAt(buffer, rs, j, primary), rPos(rs, j, primary))
+
+//@ func (*References).UnmarshalWithoutLength
+//@   ghost w References
+//@   requires l == len(w) && base(*rs) != base(w)
+//@   requires forall(j, 0, l, rAt(buffer, w, j, primary) && 0 <= rPos(w, j, primary) && rPos(w, j, primary) + rLen(w, j, primary) <= len(buffer), rPos(w, j, primary))
+//@   modifies *rs
+//@   loop 1 modifies *rs
+//@   loop 1 invariant base(*rs) != base(w)
+//@   loop 2 modifies *rs
+//@   loop 2 invariant 0 <= rangeindex+1 && rangeindex+1 <= l && len(*rs) == l && base(*rs) != base(w)
+//@   loop 2 invariant i == rPos(w, rangeindex+1, primary)
+//@   loop 2 invariant last == rLast(w, rangeindex+1, primary)
+//@   loop 2 invariant forall(k, 0, rangeindex+1, (*rs)[k] == w[k])
+//@   ensures len(*rs) == l && result == rPos(w, l, primary)
+//@   ensures forall(k, 0, l, (*rs)[k] == w[k])
+
+// The round trip holds for every buffer large enough for the encoding (the
+// exact space needed, element by element).
+//@ func verifLemma_C11_references
+//@   requires forall(j, 0, len(rs), 0 <= rPos(rs, j, primary) && rPos(rs, j, primary) + rLen(rs, j, primary) <= len(buffer), rPos(rs, j, primary))
+//@   falsify len(buffer) >= 20*len(rs)
